@@ -227,6 +227,11 @@ impl Property for P {
             ]
             .boxed(),
         };
+        let line = prop_oneof![
+            80 => line,
+            1 => gen::scaled_text_and_width(clean, 2000).prop_map(|(t, _)| t),
+            1 => gen::scaled_text_and_width(mix, 2000).prop_map(|(t, _)| t),
+        ];
         (line, gen::sep())
             .prop_map(|(line, sep)| Case { line, sep })
             .boxed()
